@@ -98,3 +98,6 @@ package dynblock
 //@ loop 1 invariant new != nil && fresh(new) && new.parent == base && new.Variables != nil && fresh(new.Variables)
 //@ loop 1 invariant forall k string :: visited(k) ==> has(new.Variables, k) && new.Variables[k] == iterObj(i.Inherited[k].Key, i.Inherited[k].Value)
 //@ loop 1 invariant forall k string :: has(new.Variables, k) ==> has(i.Inherited, k)
+
+// verif:unit U18 props=C19
+// verif:taintscan expand_spec.go
